@@ -46,10 +46,12 @@ def configs(chk):
                 allm = set(POL)
                 for s_ in slds:
                     allm |= tri(s_)
-                out.append((name, "2d", {}, 0, "Iq", "C06", frozenset(allm)))
+                out.append((name, "2d", {}, 0, "Iq", "C06", frozenset(allm), False, True))
             ori = [p.id for p in pars.orientation_parameters]
             if ori:
-                out.append((name, "2d", {ori[0]: 2}, 0, "Iq", "C06", frozenset(first)))
+                # magnetism under a jitter distribution: extended (the combined rotation and
+                # spin-channel identities are at the edge of what nlsat decides in the budget)
+                out.append((name, "2d", {ori[0]: 2}, 0, "Iq", "C06", frozenset(first), False, True))
     return out
 
 
